@@ -24,6 +24,6 @@ pub mod prelude {
 
 pub use sim::{
     current_num_threads, current_thread_has_pending_tasks, current_thread_index, in_place_scope, in_place_scope_fifo, join, join_context,
-    max_num_threads, scope, scope_fifo, spawn, spawn_fifo, yield_local, yield_now, FnContext, Scope, ThreadPool, ThreadPoolBuildError,
+    broadcast, max_num_threads, scope, scope_fifo, spawn, spawn_broadcast, spawn_fifo, yield_local, yield_now, BroadcastContext, FnContext, Scope, ThreadPool, ThreadPoolBuildError,
     ThreadPoolBuilder, Yield,
 };
